@@ -310,6 +310,22 @@ func init() {
 			scheds := c.schedules(len(stream), false)
 			c.emitClient("client10", stream, scheds[c.rng.Intn(len(scheds))], c.final(), c.rng.Intn(2) == 0, nil, ops)
 		}
+		// frames announcing more data than any valid frame may carry (2049..), all of it present: the scanner delivers
+		// them, validation rejects them with its cause, and the frames behind them are still received
+		for _, L := range []int{2049, 2050, 2600, 4089, 4090, 4096, c.pick(5000, 30000)} {
+			f := []byte{0xfa, 0xff, 0x36, 0xff, byte(L >> 8), byte(L)}
+			for i := 0; i < L+1; i++ {
+				f = append(f, byte(1+i%200))
+			}
+			pre := xsens.NewMessage(0x30, nil)
+			s := append(append(append([]byte(nil), pre...), f...), xsens.NewMessage(0x31, []byte{1, 2, 3})...)
+			s = append(s, xsens.NewMessage(0x10, nil)...)
+			ops := []cop{{kind: "receive"}, {kind: "rawmsg"}, {kind: "receive"}, {kind: "msgid"}, {kind: "receive"}, {kind: "rawmsg"},
+				{kind: "receive"}, {kind: "rawmsg"}, {kind: "receive"}, {kind: "receive"}}
+			for _, sch := range [][]int{nil, {4096, 4096, 4096}, {1000, 1000, 1000, 1000, 1000}} {
+				c.emitClient("client10", s, sch, c.final(), false, nil, ops)
+			}
+		}
 		// K1: a false header claiming 65535 bytes followed by 64 KiB and a valid frame (recorded finding)
 		{
 			s := []byte{0xfa, 0xff, 0x10, 0xff, 0xff, 0xff}
